@@ -9,7 +9,7 @@ Section Classes.
   Hypothesis Hne : name <> [].
   Hypothesis Hc : forallb namec name = true.
   Hypothesis Hd : eqc (peek name) 36 = false.
-  Hypothesis Ha : match q with None => True | Some a => forallb mac (arch_string a) = true /\ parse_arch (arch_string a) = a end.
+  Hypothesis Ha : match q with None => True | Some a => forallb mac (arch_string a) = true /\ parse_arch (arch_string a) = a /\ arch_ok (arch_string a) = true end.
   Hypothesis W : clauses_ok (base name q) cl.
 
   (* the clause loop is entered on a blank: either some clause precedes, or at least one blank is written *)
@@ -123,7 +123,7 @@ Print Assumptions C04_reject_anywhere.
    prefix: plain and substvar alternatives, in any layout) *)
 Theorem C04_prefix_alternatives_ok :
   (forall name q cl, name <> [] -> forallb namec name = true -> eqc (peek name) 36 = false ->
-     (match q with None => True | Some a => forallb mac (arch_string a) = true /\ parse_arch (arch_string a) = a end) ->
+     (match q with None => True | Some a => forallb mac (arch_string a) = true /\ parse_arch (arch_string a) = a /\ arch_ok (arch_string a) = true end) ->
      clauses_ok (base name q) cl -> alt_okR (name ++ qual_text q ++ clauses_text cl) (result name q cl)) /\
   (forall p, wf_subst p -> alt_okR (possi_string p) p).
 Proof. split; [exact alt_freeR|exact alt_substR]. Qed.
